@@ -35,6 +35,8 @@ use crate::common::rng::SeededRng;
 use crate::common::sim::{addr_of, Exec, Net, Owned};
 use crate::common::{self, digest, vclock, Ctx, Evidence, Report, Tier};
 
+pub static C11_OPS_WITH_STORES: std::sync::atomic::AtomicU64 = std::sync::atomic::AtomicU64::new(0);
+pub static C11_INTERMEDIATE_POINTS: std::sync::atomic::AtomicU64 = std::sync::atomic::AtomicU64::new(0);
 const NODE_ADMIN: u64 = 0xAD01;
 const NODE_DEV: u64 = 0xDE01;
 const PASSCODE: u32 = 20202021;
@@ -159,6 +161,8 @@ struct World {
     /// C07: for every operational session the harness set up: device-side session id -> (fabric index, root, fabric id)
     pub incarnation: BTreeMap<u16, (u8, u64, u64)>,
     pub c07: bool,
+    pub c11: bool,
+    pub c11_crash_points_checked: u64,
 }
 
 fn set_clock(m: &Matter<'_>) {
@@ -187,7 +191,7 @@ impl World {
             roots.push((kp, spec, cert));
         }
         let dev = commdrv::boot(&mut exec, &net, 1, &kv, 1000, true);
-        let mut w = World { exec, net, kv, dev: Some(dev), admin, admin_task: None, answer: Rc::new(RefCell::new(None)), roots, next_root: 0, last_csr_key: None, model: Model::default(), committed: Config::default(), boots: 1, violations: Vec::new(), case_sessions: Vec::new(), memory_dirty: false, pase_gen: 0, pase_dev_id: 0, incarnation: BTreeMap::new(), c07: false };
+        let mut w = World { exec, net, kv, dev: Some(dev), admin, admin_task: None, answer: Rc::new(RefCell::new(None)), roots, next_root: 0, last_csr_key: None, model: Model::default(), committed: Config::default(), boots: 1, violations: Vec::new(), case_sessions: Vec::new(), memory_dirty: false, pase_gen: 0, pase_dev_id: 0, incarnation: BTreeMap::new(), c07: false, c11: false, c11_crash_points_checked: 0 };
         w.exec.run()?;
         w.after_boot()?;
         w.committed = w.config();
@@ -403,9 +407,14 @@ impl World {
     }
 
     fn apply(&mut self, op: Op) -> Result<(), String> {
+        let log_before = self.kv.log_len();
         let r = self.apply_inner(op);
         if self.c07 && r.is_ok() {
             self.c07_oracle(op);
+        }
+        if self.c11 && r.is_ok() && !matches!(op, Op::Restart) {
+            let log_after = self.kv.log_len();
+            self.c11_crash_points(op, log_before, log_after);
         }
         r
     }
@@ -774,6 +783,97 @@ impl World {
     }
 }
 
+
+/// Boot a throw-away device from this key-value content: its fabrics, or why it did not start.
+fn boot_config(map: &BTreeMap<u16, Vec<u8>>) -> Result<Vec<FabSummary>, String> {
+    let saved = (vclock::now(),);
+    let mut exec = Exec::new();
+    let net = Net::new(2);
+    let kv = RecKv::from_map(map.clone());
+    let dev = commdrv::boot(&mut exec, &net, 1, &kv, 999, false);
+    exec.run()?;
+    let r = match dev.boot_error.borrow().clone() {
+        Some(e) => Err(e),
+        None => Ok(memory_config(dev.matter.get())),
+    };
+    exec.cancel(dev.task);
+    drop(exec);
+    drop(dev);
+    let _ = saved;
+    r
+}
+
+impl World {
+    /// C11: a crash between the store operations of `op` (the log grew from `before` to `after`).
+    fn c11_crash_points(&mut self, op: Op, before: usize, after: usize) {
+        if after <= before {
+            return;
+        }
+        let log: Vec<crate::common::kv::KvOp> = self.kv.0.borrow().log.clone();
+        let empty = BTreeMap::new();
+        let cfg_before = boot_config(&RecKv::map_at(&empty, &log, before));
+        let cfg_after = boot_config(&RecKv::map_at(&empty, &log, after));
+        for (n, c) in [(before, &cfg_before), (after, &cfg_after)] {
+            if let Err(e) = c {
+                self.violations.push((format!("C11:node-does-not-start-from-its-own-store:after-{}", op_class(op)), format!("restarting from the store as it was {} {:?} ({} store operations): {}", if n == before { "before" } else { "after" }, op, n, e)));
+            }
+        }
+        for n in before + 1..after {
+            match boot_config(&RecKv::map_at(&empty, &log, n)) {
+                Err(e) => self.violations.push((format!("C11:crash-point-prevents-start-up:during-{}", op_class(op)), format!("a crash after {} of the {} store operations of {:?} leaves a store the node cannot start from: {}", n - before, after - before, op, e))),
+                Ok(c) => {
+                    if Ok(&c) != cfg_before.as_ref() && Ok(&c) != cfg_after.as_ref() {
+                        self.violations.push((format!("C11:crash-point-leaves-a-torn-configuration:during-{}", op_class(op)), format!("a crash after {} of the {} store operations of {:?} comes up with {:?}, which is neither the configuration before ({:?}) nor after ({:?})", n - before, after - before, op, c.iter().map(|f| (f.idx, f.fabric_id, &f.label, f.acl.len())).collect::<Vec<_>>(), cfg_before.as_ref().map(|v| v.len()), cfg_after.as_ref().map(|v| v.len()))));
+                    }
+                }
+            }
+        }
+        self.c11_crash_points_checked += (after - before) as u64;
+        C11_OPS_WITH_STORES.fetch_add(1, std::sync::atomic::Ordering::Relaxed);
+        C11_INTERMEDIATE_POINTS.fetch_add((after - before - 1) as u64, std::sync::atomic::Ordering::Relaxed);
+    }
+
+    /// C11 checks at the end of a history
+    fn c11_final(&mut self) {
+        if self.dev.as_ref().map(|d| d.boot_error.borrow().is_some()).unwrap_or(true) {
+            return;
+        }
+        let map = self.kv.map();
+        let armed = self.md().with_state(|s| s.verif_failsafe().verif_state().0.is_some());
+        // what was written reads back equal
+        if !armed && !self.memory_dirty {
+            match boot_config(&map) {
+                Err(e) => self.violations.push(("C11:node-does-not-start-from-its-own-store".into(), e)),
+                Ok(c) => {
+                    let now = memory_config(self.md());
+                    if c != now {
+                        self.violations.push(("C11:persisted-state-does-not-read-back-equal".into(), format!("in memory {:?}, after a restart {:?}", now.iter().map(|f| (f.idx, f.fabric_id, f.node_id, &f.label, &f.acl, &f.groups)).collect::<Vec<_>>(), c.iter().map(|f| (f.idx, f.fabric_id, f.node_id, &f.label, &f.acl, &f.groups)).collect::<Vec<_>>())));
+                    }
+                }
+            }
+        }
+        // a damaged optional cache never prevents start-up
+        let expect = boot_config(&map);
+        for (i, blob) in [vec![], vec![0u8], vec![0x15], vec![0x15, 0x18], vec![0x16, 0x18], vec![0x15, 0x36, 0x01], vec![0xff; 64], vec![0x15, 0x36, 0x01, 0x15, 0x24, 0x01, 0x01, 0x18, 0x18, 0x18], vec![0x30, 0xff, 0xff, 0xff, 0xff]].into_iter().enumerate() {
+            let mut m = map.clone();
+            m.insert(rs_matter::persist::CASE_RESUMPTION_KEY, blob.clone());
+            let r = boot_config(&m);
+            if r != expect {
+                self.violations.push(("C11:damaged-resumption-cache-affects-start-up".into(), format!("resumption blob #{} ({} bytes): start-up gives {:?} instead of {:?}", i, blob.len(), r.as_ref().map(|v| v.len()), expect.as_ref().map(|v| v.len()))));
+            }
+        }
+        // a factory reset leaves nothing behind
+        match commdrv::factory_reset(&map) {
+            Err(e) => self.violations.push(("C11:factory-reset-failed".into(), e)),
+            Ok(left) => {
+                if !left.is_empty() {
+                    self.violations.push(("C11:factory-reset-leaves-data-behind".into(), format!("keys still stored after the reset: {:?} (the store held {:?})", left.keys().collect::<Vec<_>>(), map.keys().collect::<Vec<_>>())));
+                }
+            }
+        }
+    }
+}
+
 fn op_class(op: Op) -> String {
     let s = format!("{:?}", op);
     s.split('(').next().unwrap_or("").to_string()
@@ -793,13 +893,15 @@ fn describe_diff(a: &Config, b: &Config) -> String {
 
 /// (state key, violations, enabled ops) after executing a history from a fresh world
 fn execute(history: &[Op]) -> Result<(u64, Vec<(String, String)>, Vec<Op>), String> {
-    execute_mode(history, false)
+    execute_mode(history, 8)
 }
 
 /// `c07`: judge C07 (and report only its violations) instead of C08
-pub fn execute_mode(history: &[Op], c07: bool) -> Result<(u64, Vec<(String, String)>, Vec<Op>), String> {
+pub fn execute_mode(history: &[Op], mode: u8) -> Result<(u64, Vec<(String, String)>, Vec<Op>), String> {
+    let c07 = mode == 7;
     let mut w = World::new()?;
     w.c07 = c07;
+    w.c11 = mode == 11;
     for op in history {
         if !w.enabled().contains(op) {
             return Err(format!("history step {:?} is not enabled", op));
@@ -807,7 +909,11 @@ pub fn execute_mode(history: &[Op], c07: bool) -> Result<(u64, Vec<(String, Stri
         w.apply(*op)?;
     }
     if w.dev.as_ref().map(|d| d.boot_error.borrow().is_some()).unwrap_or(true) {
-        let prefix = if c07 { "C07:" } else { "C08:" };
+        let prefix = match mode {
+            7 => "C07:",
+            11 => "C11:",
+            _ => "C08:",
+        };
         return Ok((digest(&("dead", history.len())), w.violations.into_iter().filter(|(s, _)| s.starts_with(prefix) || s.contains("device-does-not-start")).collect(), vec![]));
     }
     let fs = w.md().with_state(|s| s.verif_failsafe().verif_state());
@@ -818,7 +924,14 @@ pub fn execute_mode(history: &[Op], c07: bool) -> Result<(u64, Vec<(String, Stri
     });
     let key = digest(&(w.config(), w.committed.clone(), w.model.clone(), fs.0.map(|x| (x.0, x.1)), fs.2, sessions, w.last_csr_key.is_some(), w.next_root, w.kv.0.borrow().fail_attempt.is_some(), w.md().comm_window_state().is_open(), w.memory_dirty));
     let en = w.enabled();
-    let prefix = if c07 { "C07:" } else { "C08:" };
+    if w.c11 {
+        w.c11_final();
+    }
+    let prefix = match mode {
+        7 => "C07:",
+        11 => "C11:",
+        _ => "C08:",
+    };
     let v = w.violations.into_iter().filter(|(s, _)| s.starts_with(prefix)).collect();
     Ok((key, v, en))
 }
@@ -831,11 +944,11 @@ pub struct Bfs {
 }
 
 /// level-synchronous BFS over histories; every history is executed from scratch on real objects
-pub fn bfs(prefix: Vec<Op>, depth: usize, cap: usize, c07: bool) -> Result<Bfs, String> {
+pub fn bfs(prefix: Vec<Op>, depth: usize, cap: usize, mode: u8) -> Result<Bfs, String> {
     use rayon::prelude::*;
-    let run = |h: &Vec<Op>| match common::catch(|| execute_mode(h, c07)) {
+    let run = |h: &Vec<Op>| match common::catch(|| execute_mode(h, mode)) {
         Ok(r) => r,
-        Err(p) => Ok((digest(&("panic", h.clone())), vec![(format!("{}:panic:{}", if c07 { "C07" } else { "C08" }, p.class()), p.to_string())], vec![])),
+        Err(p) => Ok((digest(&("panic", h.clone())), vec![(format!("C{:02}:panic:{}", mode, p.class()), p.to_string())], vec![])),
     };
     let (k0, v0, en0) = run(&prefix)?;
     let mut out = Bfs { states: 1, transitions: 0, violations: v0.into_iter().map(|(s, w)| (prefix.clone(), s, w)).collect(), capped: false };
@@ -930,7 +1043,7 @@ pub fn run_check(ctx: &Ctx) -> i32 {
     let mut total_transitions = 0u64;
     let mut per_root = Vec::new();
     for (name, prefix, d) in [("factory-fresh", vec![], depth), ("one-fabric-commissioned", honest_prefix(), depth)] {
-        let r = match bfs(prefix.clone(), d, if ctx.tier == Tier::Quick { 6_000 } else { 400_000 }, false) {
+        let r = match bfs(prefix.clone(), d, if ctx.tier == Tier::Quick { 6_000 } else { 400_000 }, 8) {
             Ok(r) => r,
             Err(e) => {
                 eprintln!("MACHINERY: {}", e);
